@@ -272,6 +272,13 @@ class TypedNode(Node):
                 self.add_child(n, before=before, deep=deep)
             return
 
+        if isinstance(before, Node) and before._parent is not self:
+            # Validate before the new node is created and registered
+            raise ValueError(
+                f"`before=node` ({before._parent}) "
+                f"must be a child of target node ({self})"
+            )
+
         source_node = None
         factory = self._tree._node_factory
         if isinstance(child, Node):  # TypedNode):
